@@ -36,6 +36,7 @@ func runC11(r *an.Run) {
 	c11OnlyMatchedDeleted(r)
 	c11OnlyPlusAdded(r)
 	formatOnly(r, "R4-formatting-never-adds-or-removes")
+	objectResolutionOn(r, "R5-object-resolution-is-on")
 }
 
 func c11WhoMayEdit(r *an.Run) {
@@ -292,6 +293,10 @@ func c11OnlyPlusAdded(r *an.Run) {
 		return
 	}
 	for _, c := range an.CallsTo(f, addNamedImport, addImport) {
+		// every '+' import is handed to astutil (which itself skips an import that is present with the same
+		// name and path): no other way out of Replace except a failure
+		skipped := successWithout(f, c)
+		r.Check(skipped == nil, short(f)+"|always-added", c.Pos(), "an import on a '+' line is always handed to astutil.AddNamedImport: the only returns that come before it are failures (a shortcut such as 'the path is imported already under some name' leaves the '+' import missing)")
 		a := c.Common().Args
 		r.Check(an.Path(a[len(a)-1]) == "r.Path", short(f)+"|added-path", c.Pos(), "the import added is the '+' import's own path (r.Path)")
 		r.Check(a[1] == ssa.Value(paramAt(f, 2)), short(f)+"|added-to", c.Pos(), "added to the file being rewritten")
